@@ -76,8 +76,7 @@ class AsyncChannel(BaseChannel):
         if self.channel_log:
             self.channel_log.write(buf)
 
-        if b"\x1b" in buf.lower():
-            buf = self._strip_ansi(buf=buf)
+        buf = self._strip_ansi_read(buf=buf)
 
         return buf
 
